@@ -467,7 +467,7 @@ BOUNDS = {
     "quick": ["all 27 NCBI codes: every codon over {T,C,A,G,-,?} (finite domain, symbolic codon)", "frames: sequences of 0..9 symbolic canonical bases (length is a shard key), start in {0,1,2}, both strands, codes 1 and 2",
               "k-mer kernel: <= 6 symbolic monomer codes over {T,C,A,G,-,?}", "index width: one representative sequence length per dtype class of the index array (1, 256, 65536 codons)", "complement / ambiguity tables: every IUPAC symbol of DNA and RNA, old and new moltypes"],
 }
-BOUNDS["quick"].append("get_translation of Sequence / SequenceCollection / Alignment (old and new style): 'ATGCCA' + one symbolic final codon over {T,C,A,G}, code 2 through all six entry points, code 6 through the collections (all 27 codes x 6 entry points in thorough); include_stop + trim_stop=False for code 2")
+BOUNDS["quick"].append("get_translation of Sequence / SequenceCollection / Alignment (old and new style): 'ATGCCA' + one symbolic final codon over {T,C,A,G}, all 27 codes through the collection entry points, codes 2 and 6 through all six (all 27 codes x 6 entry points in thorough); include_stop + trim_stop=False for code 2")
 BOUNDS["thorough"] = ["as quick, frames for codes 1, 2, 4, 11; get_translation entry points for all 27 codes"]
 ASSUMPTIONS = [
     "the byte-level translate call (bytes.translate, C) is replaced by the 66-entry table extracted this run from the real converter; the k-mer kernel is run through its .py_func (numba compilation trusted); numpy.zeros in new_alphabet rebound to an object-array allocator",
@@ -501,12 +501,12 @@ def obligations(tier):
                     obs.append(Ob(f"frames/code{cid}/n{n}/start{start}/rc_documented", __name__, "mk_frames", {"code_id": cid, "n": n, "start": start, "rc": True, "mode": "rc_documented"}, timeout=900, twins=("end",), group="frames", expect_known=KNOWN_KEY))
     # codes whose stop sets differ from the standard code: 2 (TGA->W, AGA/AGG stop), 6 (TAA/TAG->Q); thorough: all 27
     # (~0.8 s per codon under tracing: Sequence construction + get_translation; 64 codons per run)
-    for cid in ([c[1] for c in G.code_mapping] if T else (2, 6)):
+    for cid in [c[1] for c in G.code_mapping]:
         for style in ("old", "new"):
             for api in ("seq", "coll", "aln"):
-                if not T and cid == 6 and api != "coll":
-                    continue  # quick: the second code only through the collection entry point
-                obs.append(Ob(f"translation_api/{style}/{api}/code{cid}", __name__, "mk_translation_api", {"code_id": cid, "api": api, "style": style}, timeout=1800,
+                if not T and cid not in (2, 6) and api != "coll":
+                    continue  # quick: every code through the collection entry point, codes 2 and 6 through all six
+                obs.append(Ob(f"translation_api/{style}/{api}/code{cid}", __name__, "mk_translation_api", {"code_id": cid, "api": api, "style": style}, timeout=900,
                               twins=("end", "stop") if (cid == 2 and api == "seq") else ("end",), group="api"))
     for style in ("old", "new"):
         for api in (("seq", "coll", "aln") if T else ("coll",)):
